@@ -26,6 +26,10 @@ Theorem final_invariant_reachable : forall (progs : list (tid * list (cop K V)))
   NoDup (map fst progs) -> CIall ltb order (fst (exec ltb order (init_st progs) sched)).
 Proof. exact (CIall_reachable K V ltb HS order Heven H4 P2 P3 (all_pc_ok2_init K V) (all_pc_ok3_init K V ltb)). Qed.
 
+Theorem final_BigInv_reachable : forall (progs : list (tid * list (cop K V))) sched,
+  NoDup (map fst progs) -> BigInv K V ltb order (fst (exec ltb order (init_st progs) sched)).
+Proof. exact (BigInv_reachable K V ltb HS order Heven H4 P2 P3 (all_pc_ok2_init K V) (all_pc_ok3_init K V ltb)). Qed.
+
 Theorem final_GI_reachable : forall (progs : list (tid * list (cop K V))) sched,
   NoDup (map fst progs) -> GI ltb order (fst (exec ltb order (init_st progs) sched)).
 Proof. exact (GI_reachable K V ltb HS order Heven H4 P2 P3 (all_pc_ok2_init K V) (all_pc_ok3_init K V ltb)). Qed.
